@@ -116,9 +116,46 @@ def regenerated(cfg):
             gl = open(os.path.join(COQ, "gen", "GenLocks.v")).read()
             n = len(re.findall(r'^\s*\[?\("lk_\w+", lk_\w+\)', gl, re.M))
             out.append("lock/channel skeletons of %d functions of the core packages (coq/gen/GenLocks.v)" % n)
+        if cfg.get("call_order"):
+            go = open(os.path.join(COQ, "gen", "GenOrder.v")).read()
+            n = len(re.findall(r'^\s*\[?\("co_\w+", co_\w+\)', go, re.M))
+            out.append("call-order skeletons of %d functions of the core packages (coq/gen/GenOrder.v); rules %s* of proofs/GenOrderCheck.v" % (n, cfg["call_order"]))
     except OSError:
         pass
     return out
+
+
+def order_report(prefix):
+    """The call-order obligations (proofs/GenOrderCheck.v: co_rules) evaluated on the regenerated skeletons
+    (coq/gen/GenOrder.v): the rules of this property that have a problem.  Returns (list, error text)."""
+    rc, out, _ = sh([os.path.join(V, "lib", "coqbuild.py"), "proofs/GenOrderCheck.vo"], timeout=900)
+    if rc != 0:
+        return [], "GenOrderCheck does not build: " + out[-600:]
+    d = os.path.join(V, "work", "lockreport")
+    os.makedirs(d, exist_ok=True)
+    f = os.path.join(d, "order_%d.v" % os.getpid())
+    open(f, "w").write("From Coq Require Import String List.\nImport ListNotations.\nFrom SigP Require Import GenOrderCheck.\nOpen Scope string_scope.\n"
+                       "Definition R := Eval vm_compute in co_report.\nPrint R.\n")
+    rc, out, _ = sh(["coqc", "-Q", os.path.join(COQ, "model"), "SigM", "-Q", os.path.join(COQ, "proofs"), "SigP",
+                     "-Q", os.path.join(COQ, "gen"), "SigG", f], timeout=600, cwd=d)
+    if rc != 0:
+        return [], "call-order report did not evaluate: " + out[-600:]
+    body = " ".join(out.split())
+    items = []
+    for m in re.finditer(r'\("([^"]+)",\s*\[([^\]]*)\]\)', body):
+        if m.group(1).startswith(prefix):
+            items.append({"rule": m.group(1), "problems": m.group(2).strip()})
+    return items, ""
+
+
+def order_rules():
+    """rule id -> (root, first, second) as written in proofs/GenOrderCheck.v (for messages only)"""
+    try:
+        t = open(os.path.join(COQ, "proofs", "GenOrderCheck.v")).read()
+    except OSError:
+        return {}
+    return {m.group(1): (m.group(2), m.group(3), m.group(4))
+            for m in re.finditer(r'mkRule "([^"]+)"\s*"([^"]+)"\s*"([^"]+)" "([^"]+)"', t)}
 
 
 def lock_report():
@@ -254,6 +291,17 @@ def main(REG):
         for it in items[:8]:
             problems.append({"kind": "lock-discipline", "what": "the lock skeleton of %s (regenerated from the source) has a trace on which the goroutine does: %s — %s" % (
                 it["function"], " ; ".join(it["trace"]), it["objection"]), **it})
+    if cfg.get("call_order"):
+        # which store-before-drop obligations of this property fail on the regenerated call-order skeletons
+        items, oerr = order_report(cfg["call_order"])
+        if oerr:
+            problems.append({"kind": "call-order", "what": oerr})
+        rl = order_rules()
+        for it in items[:8]:
+            root, first, second = rl.get(it["rule"], ("?", "?", "?"))
+            problems.append({"kind": "call-order", "what": "call-order obligation %s no longer holds on the skeleton of %s regenerated from the source: "
+                             "a path exists on which %s is called without an earlier call of %s (or one of the calls / the function is gone): %s" % (
+                                 it["rule"], root.replace("co_", ""), second, first, it["problems"]), **it})
     allowed_axioms = set(cfg.get("allowed_axioms", []))
     extra_ax = [x for x in pr.get("axioms", []) if x not in allowed_axioms]
     if extra_ax:
